@@ -384,11 +384,18 @@ def f_treeamend():
 
 # -- more families for the history checks (C01, C04, C06, C07) -------------------------------------
 
-def f_glob(present=("a", "b"), mode="tree", subs="none", cfg=0, nest=0):
+def f_glob(present=("a", "b"), mode="tree", subs="none", cfg=0, nest=0, deep=0):
     """One step per file matching data/${*n}.txt; the matches are static by tree or by pattern.
     subs="ab" restricts the named wildcard to [ab]: data/zz.txt then matches the default pattern
     of the wildcard but not the glob. cfg=1: the globbing is done by a sub-plan g.py that also
     has a static input cfg.txt (so it can be pending for a reason of its own)."""
+    if deep:
+        # the matched files live three levels down inside a static tree and are only listed: no
+        # step uses them as input, so they are recorded as matches of the pattern and nowhere else
+        files = {f"src/pkg/mod/{n}.txt": f"data {n}\n" for n in present}
+        body = [tr("G", [], ["out/{n}.out"])]
+        files["plan.py"] = script([["static", "src/"], ["glob", "src/pkg/mod/${*n}.txt", {}, body]])
+        return files
     if nest:
         # the matched files live two levels down, and neither level exists at the start
         body = [tr("G", ["data/raw/{n}.txt"], ["out/{n}.out"])]
